@@ -317,10 +317,10 @@ func C02(p *core.Program, r *core.Report) {
 				return false
 			}
 			ic, ok := l.Index.(*ssa.Call)
-			return ok && ic.Common().IsInvoke() && ic.Common().Method.Name() == "BlockTypeCode"
+			return ok && isTypeCodeCall(ic)
 		}}},
 		{"payload-block-last", cv, payloadLastPreds(c("ExtBlockTypePayloadBlock"))},
-		{"payload-block-number-1", ccv, []func(ssa.Value) bool{mentionsInvoke("BlockTypeCode"), mentionsField("BlockNumber"), mentionsConst(1)}},
+		{"payload-block-number-1", ccv, []func(ssa.Value) bool{mentionsTypeCode, mentionsField("BlockNumber"), mentionsConst(1)}},
 		{"zero-time-needs-age-block", cv, []func(ssa.Value) bool{mentionsCall(bp7 + ".CreationTimestamp.IsZeroTime"), func(v ssa.Value) bool {
 			cc, ok := v.(*ssa.Call)
 			if !ok || !core.NameIs(core.CalleeName(cc), bp7+".Bundle.ExtensionBlock") {
@@ -394,8 +394,10 @@ func C02(p *core.Program, r *core.Report) {
 	ie := p.Func(bp7, "HopCountBlock", "IsExceeded")
 	okIE := false
 	for _, rv := range core.ReturnValues(ie, 0) {
-		if b, ok := rv.V.(*ssa.BinOp); ok && b.Op == token.GTR && pathEndsWith(b.X, "Count") && pathEndsWith(b.Y, "Limit") {
-			okIE = true
+		if b, ok := rv.V.(*ssa.BinOp); ok {
+			if big, small, strict, isOrd := core.Greater(b); isOrd && strict && pathEndsWith(big, "Count") && pathEndsWith(small, "Limit") {
+				okIE = true
+			}
 		}
 	}
 	r.Check(okIE, "rule-guard/"+fname(ie)+"/count-greater-limit", "IsExceeded is Count > Limit", p.Pos(ie.Pos()), "", "comparison changed")
@@ -931,7 +933,7 @@ func constValAbs(p *core.Program, pkgPath, name string) int64 {
 func payloadLastPreds(payloadType int64) []func(ssa.Value) bool {
 	return []func(ssa.Value) bool{
 		func(v ssa.Value) bool {
-			return mentionsInvoke("BlockTypeCode")(v) || mentionsCall(bp7 + ".CanonicalBlock.TypeCode")(v)
+			return mentionsTypeCode(v)
 		},
 		mentionsConst(payloadType),
 		func(v ssa.Value) bool {
@@ -949,4 +951,19 @@ func checkPayloadLastGuard(p *core.Program, r *core.Report) {
 	cv := p.Func(bp7, "Bundle", "CheckValid")
 	k := constVal(p, bp7, "ExtBlockTypePayloadBlock")
 	r.Check(guardMentions(cv, payloadLastPreds(k)...), "rule-guard/"+fname(cv)+"/payload-block-last", "the validator, which the parser runs on everything it accepts, contains an error-producing branch whose condition compares the TYPE of the last block with the payload block's type", p.Pos(cv.Pos()), "", "no error branch guarded by a condition mentioning the last block's type code and the payload type constant")
+}
+
+
+// isTypeCodeCall: the block's type code, asked of the block's value (interface method BlockTypeCode) or of the
+// canonical block (TypeCode, which returns the former).
+func isTypeCodeCall(c *ssa.Call) bool {
+	if c.Common().IsInvoke() && c.Common().Method.Name() == "BlockTypeCode" {
+		return true
+	}
+	return core.NameIs(core.CalleeName(c), bp7+".CanonicalBlock.TypeCode")
+}
+
+func mentionsTypeCode(v ssa.Value) bool {
+	c, ok := v.(*ssa.Call)
+	return ok && isTypeCodeCall(c)
 }
